@@ -634,8 +634,6 @@ class SPattern:
         t = self._items(subject)
         out, last, n = [], 0, 0
         for m in self.finditer(t):
-            if m.end() == m.start():
-                raise Unsupported("split on empty match")
             out.append(wrap(TStr(t.items[last:m.start()])))
             out.extend(m.groups())
             last = m.end()
